@@ -162,7 +162,8 @@ type sim struct {
 	sentVotes []sentVote
 
 	// hooks
-	afterOp func(s *sim, op Op, idx int)
+	afterOp  func(s *sim, op Op, idx int)
+	beforeOp func(s *sim, idx int)
 
 	own ownership
 
@@ -184,6 +185,13 @@ type sim struct {
 	fMask          uint32 // sanitized: power(fMask) < 1/3 of every set's total
 	fStart         [2]uint64
 	fSigned        map[string]string
+	incStartGS     int
+	incStartSM     int
+	recorder       func(d delivery) // C10: record every message delivered (reference run)
+	crashMode      bool
+	c10            bool
+	c11            *c11State
+	final          func(s *sim)
 }
 
 // ownership says which liveness clauses the running test function owns; in
@@ -251,6 +259,7 @@ type callResult struct {
 	done   atomic.Bool
 	pc     *pollCtx
 	wedged bool // could only end through its fake-time deadline (or not at all)
+	crashed bool // the incarnation died (crash point) while the call was pending
 }
 
 func (r *callResult) livelock() bool { return r.pc.tripped.Load() }
@@ -276,6 +285,15 @@ func (s *sim) settle(rs ...*callResult) {
 			pending = append(pending, r)
 		}
 	}
+	if len(pending) > 0 && s.crashMode && s.n != nil && s.n.inc.dead {
+		// the process died at the chosen store write: nothing of it survives
+		s.n.cancel()
+		synctest.Wait()
+		for _, r := range pending {
+			r.crashed = true
+		}
+		return
+	}
 	if len(pending) > 0 {
 		time.Sleep(callDeadline + time.Second)
 		synctest.Wait()
@@ -289,6 +307,7 @@ func (s *sim) settle(rs ...*callResult) {
 // life cycle
 
 func (s *sim) start(crashAt int) {
+	s.incStartGS, s.incStartSM = len(s.gsRecv), len(s.smRecv)
 	inc := newIncarnation(s.d)
 	if crashAt > 0 {
 		inc.crashAt = crashAt
@@ -470,6 +489,9 @@ func (s *sim) observe() {
 		}
 		return
 	}
+	if (s.smStalled || s.gsStalled) && s.vv.Height != 0 && (vv.Height != s.vv.Height || vv.Round != s.vv.Round) {
+		s.label("shift-while-stalled")
+	}
 	s.vv, s.cv = vv, cv
 }
 
@@ -478,7 +500,7 @@ func (s *sim) observe() {
 
 func runSim(t *testing.T, c simCase, own ownership, setup func(s *sim)) (out *sim) {
 	s := &sim{c: c, labels: map[string]int{}, excluded: map[string]int{}, own: own, concurrentStep: map[int]bool{}}
-	s.log = slog.New(slog.NewTextHandler(io.Discard, &slog.HandlerOptions{Level: slog.Level(100)}))
+	s.log = discardLogger()
 	s.w = newWorld(c.Cfg)
 	s.d = newDisk()
 	if setup != nil {
@@ -507,6 +529,9 @@ func runSim(t *testing.T, c simCase, own ownership, setup func(s *sim)) (out *si
 				return
 			}
 			s.step = i
+			if s.beforeOp != nil {
+				s.beforeOp(s, i)
+			}
 			s.exec(op)
 			if s.stopped() {
 				return
@@ -525,8 +550,31 @@ func runSim(t *testing.T, c simCase, own ownership, setup func(s *sim)) (out *si
 				s.afterOp(s, op, i)
 			}
 		}
+		if s.stopped() {
+			return
+		}
+		// inputs stop: consumers resume and drain everything
+		s.step = len(c.Ops)
+		s.smStalled, s.gsStalled = false, false
+		if s.alive {
+			s.drainAll()
+			s.observe()
+		}
+		if s.stopped() {
+			return
+		}
+		if s.afterOp != nil {
+			s.afterOp(s, Op{K: "end"}, len(c.Ops))
+		}
+		if s.final != nil && !s.stopped() {
+			s.final(s)
+		}
 	})
 	return s
+}
+
+func discardLogger() *slog.Logger {
+	return slog.New(slog.NewTextHandler(io.Discard, &slog.HandlerOptions{Level: slog.Level(100)}))
 }
 
 // resolve turns the relative height / round of an op into absolute values.
